@@ -1069,3 +1069,9 @@ Example C16_mergeat_end_to_end_nonvacuous :
 Proof.
   split; [apply x_total_sound; vm_compute; reflexivity|]. vm_compute. repeat split.
 Qed.
+
+(* Every remaining statement of this file, so that none is left unaudited. *)
+Print Assumptions C16_set_reloads_refuted.
+Print Assumptions C16_stdin_same_empty_stream_refuted.
+Print Assumptions x_in_universe.
+Print Assumptions x_total_sound.
